@@ -14,8 +14,10 @@ RULE = ("Two feature files on disk (features/f0.feature, features/f1.feature in 
         "hookb (before_scenario raises for it), hooka (after_scenario raises for it), desel (tagged @x, run with "
         "--tags='not x'; its step would fail)}; deviation bounding: all assignments with <= 2 (quick) / <= 4 (thorough) "
         "non-pass slots over 12 (thorough: 19) ordered shape pairs with 2-6 scenario slots; x stale rerun.txt present/absent; "
-        "plus, on 3 (thorough: 21) pairs, one container-level hook fault - after_feature / after_tag of a feature tag / "
-        "before_feature for each file, after_rule / after_tag of a rule tag / before_rule for each rule (the container ends "
+        "plus, on 4 (thorough: 22) pairs, one container-level hook fault - after_feature / after_tag of a feature tag / "
+        "before_feature / before_tag of a feature tag for each file, after_rule / after_tag of a rule tag / before_rule / "
+        "before_tag of a rule tag for each rule, among them a faulted rule FOLLOWED by another rule with a plain scenario "
+        "and an outline row, so that untested scenarios sit in the middle of an executed feature (the container ends "
         "hook_error; after-hooks leave the scenarios' statuses alone, before-hooks leave them untested) - combined with "
         "<= 2 (thorough: <= 3, on the quick pairs) non-pass slots, stale file present; plus, on 3 (thorough: 6) pairs, the "
         "same programs rendered with ALL Scenario / Scenario Outline / Rule / Examples titles identical (namesake plain "
@@ -92,6 +94,9 @@ SHAPES = {
     "E0|O2": _F((P.O2([((), ()), ((), ROWS2)]),)),
     "O1|E0,S": _F((P.O2([((), ROWS1), ((), ())]), _S())),
     "S+R(E0|O1)": _F((_S(), _R((P.O2([((), ()), ((), ROWS1)]),)))),
+    # a rule followed by another rule that holds a plain scenario and an outline row: when the first rule's before-hook fails
+    # its scenario stays untested in the MIDDLE of an executed feature (statuses are not monotone along the file)
+    "R(S)+R(S,O1)": _F((_R((_S(),)), _R((_S(), _O(ROWS1))))),
     "R(S)+R(S)": _F((_R((_S(),)), _R((_S(),)))),            # identical-titles dimension only
     "O1,O1": _F((_O(ROWS1), _O(ROWS1))),                    # identical-titles dimension only
 }
@@ -100,7 +105,8 @@ QUICK_PAIRS = (("S", "S"), ("SS", "O2"), ("O2", "S+R(S)"), ("S+R(S)", "SS"), ("b
                ("O2", "R(S)+R(O1)"), ("E0|O2", "O1|E0,S"))
 # pairs that get the container-level hook faults in the quick tier (feature faults in both files; a rule holding a plain
 # scenario in f0, a rule holding a scenario and an outline row in f1)
-QUICK_FAULT_PAIRS = (("S", "S"), ("S+R(S)", "O2"), ("S", "R(S,O1)"))
+QUICK_FAULT_PAIRS = (("S", "S"), ("S+R(S)", "O2"), ("S", "R(S,O1)"), ("R(S)+R(S,O1)", "S"))
+RULE_FAULTS_ONLY = (("R(S)+R(S,O1)", "S"),)      # quick: this pair gets the rule-level faults only
 # identical-titles dimension: every Scenario / Scenario Outline / Rule / Examples title of both files is the same text, so
 # namesakes exist among plain scenarios, between a feature-level scenario and one in a rule, in two different rules, and
 # among outline rows (two same-named outlines generate identical row names "same -- @1.1 same")
@@ -135,9 +141,9 @@ def fill(node, it):
     return (node[0], node[1], node[2], tuple(items))
 
 
-CTAG = "ct"          # tag put on the container whose after_tag hook raises
-FEATURE_HOOKS = ("after_feature", "after_tag", "before_feature")
-RULE_HOOKS = ("after_rule", "after_tag", "before_rule")
+CTAG = "ct"          # tag put on the container whose after_tag / before_tag hook raises
+FEATURE_HOOKS = ("after_feature", "after_tag", "before_feature", "before_tag")
+RULE_HOOKS = ("after_rule", "after_tag", "before_rule", "before_tag")
 
 
 def container_faults(shape0, shape1):
@@ -154,7 +160,7 @@ def container_faults(shape0, shape1):
 def build(shape0, shape1, kinds, cfault=None):
     it = iter(kinds)
     prog = [fill(shape0, it), fill(shape1, it)]
-    if cfault and cfault[1] == "after_tag":
+    if cfault and cfault[1].endswith("_tag"):
         cp = cfault[0]
         f = prog[cp[0]]
         if len(cp) == 1:
@@ -359,14 +365,18 @@ def one_run(m, args, loc2path, faults, loc2cont=None, cfault=None, feedback=Fals
         hook.__name__ = name
         return hook
 
-    def after_tag(ctx, tag):
-        if tag == CTAG:
-            obs["chooks"].append(("after_tag", tag))
-            if cfault and cfault[1] == "after_tag":
-                raise harness.HookFault("after_tag fault")
+    def tag_hook(name):
+        def hook(ctx, tag):
+            if tag == CTAG:
+                obs["chooks"].append((name, tag))
+                if cfault and cfault[1] == name:
+                    raise harness.HookFault("%s fault" % name)
+        hook.__name__ = name
+        return hook
 
     runner = m["ModelRunner"](config, feats, step_registry=reg)
-    runner.hooks = {"before_scenario": before_scenario, "after_scenario": after_scenario, "after_tag": after_tag}
+    runner.hooks = {"before_scenario": before_scenario, "after_scenario": after_scenario,
+                    "after_tag": tag_hook("after_tag"), "before_tag": tag_hook("before_tag")}
     for name in ("before_feature", "after_feature", "before_rule", "after_rule"):
         runner.hooks[name] = container_hook(name)
     runner.formatters = make_formatters(config, config.outputs)
@@ -437,6 +447,8 @@ def check_listing(v, hist, status, order, path2loc, loc2path, text, entries, sta
             desc = {"subcheck": "rerun.listing", "clause": "missing", "status_class": cls}
             if fst == "hook_error":          # only a feature-level hook fault gives a feature this status
                 desc["feature_status"] = fst
+            if any(status.get(q) == "untested" for q in order[:order.index(p)] if path2loc[q][0] == e[0]):
+                desc["preceded_by"] = "untested-scenario"      # statuses are not monotone along the file
             if p in forced:                  # status fixed by the kind `cleanup`, the model says otherwise
                 desc["status_from"] = "raising-scenario-cleanup"
             if tagon and tagon.get(e[0]):    # switch-combination programs: where @t sits in that feature
@@ -551,7 +563,7 @@ def rerun_case(case):
         st1 = o1["status"]
         cut = cfault[0] if cfault and cfault[1].startswith("before_") else None     # nothing inside it may run
         if cfault:
-            fired = [h for h in o1["chooks"] if h == ((cfault[1], CTAG) if cfault[1] == "after_tag" else
+            fired = [h for h in o1["chooks"] if h == ((cfault[1], CTAG) if cfault[1].endswith("_tag") else
                                                       (cfault[1], cfault[0]))]
             if len(fired) != 1 or o1["cstatus"].get(cfault[0]) != "hook_error":
                 v.append(({"subcheck": "run.status", "clause": "container-fault-premise", "hook": cfault[1],
@@ -770,6 +782,7 @@ def cases(tier):
     bound = 2 if quick else 4
     fault_pairs = [(pr, 2) for pr in QUICK_FAULT_PAIRS] if quick else \
                   [(pr, 3 if pr in QUICK_PAIRS else 2) for pr in THOROUGH_PAIRS + QUICK_FAULT_PAIRS[1:]]
+    rule_only = RULE_FAULTS_ONLY if quick else ()
     for ndev in range(0, bound + 1):            # simplest first over all pairs
         for a, b in pairs:
             s0, s1 = SHAPES[a], SHAPES[b]
@@ -785,6 +798,8 @@ def cases(tier):
             s0, s1 = SHAPES[a], SHAPES[b]
             n = nslots(s0) + nslots(s1)
             for cf in container_faults(s0, s1):
+                if (a, b) in rule_only and len(cf[0]) != 2:
+                    continue
                 for kinds in assignments(n, ndev):
                     yield (s0, s1, kinds, 1, cf)
         # identical titles (namesakes differing in success), full history, stale file present
@@ -880,10 +895,10 @@ def run(ctx):
     pairs = QUICK_PAIRS if ctx.quick else THOROUGH_PAIRS
     ctx.bounds = {"feature_files": 2, "shape_pairs": len(pairs), "max_nonpass_scenarios": 2 if ctx.quick else 4,
                   "kinds": len(KINDS), "stale_file": "present/absent (container-fault cases: present)",
-                  "container_hook_faults": "every single one of after_feature/after_tag/before_feature per feature and "
-                                           "after_rule/after_tag/before_rule per rule",
-                  "container_fault_pairs": "3 pairs, <= 2 non-pass scenarios" if ctx.quick else
-                                           "21 pairs, <= 3 non-pass scenarios on the 12 quick pairs, <= 2 on the others",
+                  "container_hook_faults": "every single one of after_feature/after_tag/before_feature/before_tag per "
+                                           "feature and after_rule/after_tag/before_rule/before_tag per rule",
+                  "container_fault_pairs": "4 pairs, <= 2 non-pass scenarios" if ctx.quick else
+                                           "22 pairs, <= 3 non-pass scenarios on the 12 quick pairs, <= 2 on the others",
                   "identical_titles": "%d pairs, <= %d non-pass scenarios, all Scenario/Outline/Rule/Examples titles equal"
                                       % ((len(DUP_PAIRS), 2) if ctx.quick else (len(DUP_PAIRS_THOROUGH), 3)),
                   "special_bystander_tags": "@setup/@teardown on a scenario (3 positions), an outline (3 positions), an "
@@ -914,6 +929,9 @@ def run(ctx):
     for lvl, hooks in (("feature", FEATURE_HOOKS), ("rule", RULE_HOOKS)):
         for h in hooks:
             ctx.guard((h, lvl) in cfs, "container fault %s at %s level exercised" % (h, lvl))
+    ctx.guard(any(o[5] and o[5] == ("before_rule", "rule") and "untested" in o[0] and o[1] > 0 and o[4]
+                  for o in ctx.outcomes),
+              "a rule left untested by its failing before_rule hook next to unsuccessful scenarios; file fed back")
     ctx.guard(any(o[5] and o[5][0].startswith("after_") and o[1] > 0 and o[4] for o in ctx.outcomes),
               "a container with a raising after-hook held unsuccessful scenarios and the file was fed back")
     ctx.guard(any(o[6] and o[4] and o[1] > 0 for o in ctx.outcomes),
